@@ -21,6 +21,7 @@ RULE = (
     "consecutive bins per chromosome, dict aggregate; plus the schema validator. Non-trivial = a chromosome whose "
     "bin count is not a multiple of k or < k, >=1 coarse pixel aggregating >=2 fine pixels, and chunksize < nnz. "
     "Distinct by sha1 of the canonical case."
+    " CLI cases leave -c/-n to their defaults when the drawn value stands for 'not given'."
 )
 ASSUMPTIONS = ["real worker pools are sampled, not scheduled (C08 'schedules' component, see DESIGN section 8)"]
 
